@@ -1,20 +1,55 @@
 #!/bin/bash
 # run.sh <Cxx|selftest> [quick|thorough] [extra flags for cmd/check]
 # Builds cmd/check against /repo's CURRENT working tree (tag verif) and runs it.
+# C05 and C11 run on an instrumented scratch copy of /repo's working tree
+# (cmd/instr), made fresh for each invocation and removed afterwards.
 # Exit: 0 held, 1 violation, 2 harness/build trouble.
 set -u
 cd "$(dirname "$0")" || exit 2
-export GOFLAGS=-mod=mod GOPROXY=off GOSUMDB=off GOTOOLCHAIN=local CGO_ENABLED=${CGO_ENABLED:-0}
+VERIF="$(pwd)"
+export GOFLAGS=-mod=mod GOPROXY=off GOSUMDB=off GOTOOLCHAIN=local
 ID="${1:?usage: run.sh <Cxx> [quick|thorough]}"; shift
 TIER="${1:-${VERIF_TIER:-quick}}"; [ $# -gt 0 ] && shift
+REPO="${VERIF_REPO:-/repo}"
 mkdir -p bin evidence replays
 ulimit -v 33554432 2>/dev/null   # 32 GiB address space cap: a runaway allocation kills the check (exit 2), not the box
-BIN=bin/check
-if ! go build -tags verif -o "$BIN" ./cmd/check 2> bin/build.err; then
-  echo "BUILD FAILED (harness or /repo does not compile with -tags verif):" >&2
-  cat bin/build.err >&2
-  exit 2
+
+OUT="${VERIF_OUT:-$VERIF}"
+BINDIR="bin/run.$$"; mkdir -p "$BINDIR"
+MODFLAG=""
+if [ "$REPO" != "/repo" ]; then      # sensitivity experiments against a scratch worktree (tools/against.sh)
+  ALT="$(mktemp -d "${VERIF_SCRATCH:-/root/scratch}/alt.XXXXXX" 2>/dev/null || mktemp -d)"
+  sed "s#=> /repo#=> $REPO#" go.mod > "$ALT/go.mod"; cp go.sum "$ALT/go.sum"
+  MODFLAG="-modfile=$ALT/go.mod"
 fi
-"$BIN" "$ID" -tier "$TIER" -dir "$(pwd)" "$@"
+SCR=""
+cleanup() { [ -n "$SCR" ] && rm -rf "$SCR"; [ -n "${ALT:-}" ] && rm -rf "$ALT"; rm -rf "$BINDIR"; }
+trap cleanup EXIT
+
+build_plain() {
+  CGO_ENABLED=0 go build $MODFLAG -tags verif -o "$1" ./cmd/check 2> $BINDIR/build.err || {
+    echo "BUILD FAILED (harness or $REPO does not compile with -tags verif):" >&2; cat $BINDIR/build.err >&2; exit 2; }
+}
+
+case "$ID" in
+  C05|C11)
+    mkdir -p "${VERIF_SCRATCH:-/root/scratch}" 2>/dev/null
+    SCR="$(mktemp -d "${VERIF_SCRATCH:-/root/scratch}/instr.XXXXXX" 2>/dev/null || mktemp -d)"
+    CGO_ENABLED=0 go build -o $BINDIR/instr ./cmd/instr 2> $BINDIR/build.err || { echo "BUILD FAILED (cmd/instr):" >&2; cat $BINDIR/build.err >&2; exit 2; }
+    $BINDIR/instr -src "$REPO" -dst "$SCR/mq" -modfile "$SCR/go.mod" -verif "$VERIF" || { echo "instrumentation failed" >&2; exit 2; }
+    # the instrumented copy must still pass the library's own tests before its results are believed
+    ( cd "$SCR/mq" && CGO_ENABLED=0 go test -tags verif -vet=off -count=1 . > "$SCR/selftest.log" 2>&1 ) || {
+      echo "instrumented copy FAILS the library's own tests (exit 2, no verdict):" >&2; tail -20 "$SCR/selftest.log" >&2; exit 2; }
+    BIN="$BINDIR/check-instr"
+    CGO_ENABLED=0 go build -modfile="$SCR/go.mod" -tags "verif verifinstr" -o "$BIN" ./cmd/check 2> $BINDIR/build.err || {
+      echo "BUILD FAILED (instrumented):" >&2; cat $BINDIR/build.err >&2; exit 2; }
+    if [ "$ID" = C11 ]; then build_plain $BINDIR/check; export VERIF_PLAIN_BIN="$VERIF/$BINDIR/check"; fi
+    ;;
+  *)
+    BIN="$BINDIR/check"
+    build_plain "$BIN"
+    ;;
+esac
+"$BIN" "$ID" -tier "$TIER" -dir "$VERIF" -out "$OUT" "$@"
 rc=$?
 case $rc in 0|1) exit $rc;; *) exit 2;; esac
